@@ -285,33 +285,45 @@ def check(prog, run):
     # ---- P5 sibling default comparison
     r = run.rule("P5", "the three argument / input-field differs compare defaults with the same condition (presence changed, or "
                        "both present and values differ)", 3)
-    conds = {}
-    for fname, a, b in (("_diff_directive_arguments", "old_arg", "new_arg"), ("_diff_field_arguments", "old_arg", "new_arg"), ("_diff_input_types", "old_field", "new_field")):
+    # path form: for every (old has default, new has default, values equal) the executions of each differ that consult the
+    # defaults (type unchanged / safely changed) construct a *DefaultValueChange iff presence changed or both present and
+    # different; a condition factored out into a helper is evaluated under the same assumption.
+    import re
+    from .. import predcall
+    for fname in ("_diff_directive_arguments", "_diff_field_arguments", "_diff_input_types"):
         f = m.functions.get(fname)
         shapes.require(f is not None, "C20.P5: %s not found" % fname)
-        for n in own_nodes(f.node):
-            if isinstance(n, ast.If) and "has_default_value" in ast.unparse(n.test) and any(isinstance(x, ast.Yield) for x in ast.walk(n)):
-                txt = " ".join(ast.unparse(n.test).split()).replace(a, "OLD").replace(b, "NEW")
-                conds[fname] = txt
-    for k, v in conds.items():
-        r.instance("%s: %s" % (k, v))
-    if len(conds) != 3 or len(set(conds.values())) != 1:
-        run.report(r, "%s:default-comparison:siblings-disagree" % D, "src/py_gql/schema/differ/__init__.py",
-                   "the default-value comparison differs between the argument/input-field differs: %s" % conds)
-    else:
-        expr = ast.parse(list(conds.values())[0], mode="eval").body
-        names = {"OLD.has_default_value": "o", "NEW.has_default_value": "n", "OLD.default_value == NEW.default_value": "eq"}
-        try:
-            bad = []
-            for o_ in (False, True):
-                for n_ in (False, True):
-                    for eq in (False, True):
-                        env = {"OLD.has_default_value": o_, "NEW.has_default_value": n_, "OLD.default_value == NEW.default_value": eq}
-                        got = boolx.evaluate(expr, env)
-                        want = (o_ != n_) or (o_ and n_ and not eq)
+        run.looked_at(f)
+        bad, consulted = [], 0
+        for o_ in (False, True):
+            for n_ in (False, True):
+                for eq in (False, True):
+                    def base(t, o_=o_, n_=n_, eq=eq):
+                        mm = re.match(r"^(\w+)\.has_default_value$", t)
+                        if mm:
+                            return o_ if mm.group(1).startswith("old") else (n_ if mm.group(1).startswith("new") else None)
+                        if re.match(r"^\w+\.default_value == \w+\.default_value$", t):
+                            return eq
+                        if t.startswith("_is_safe_input_type_change(") or t.startswith("_is_safe_output_type_change("):
+                            return True
+                        return None
+                    decide = predcall.decide_with_helpers(prog, f, base, run.looked_at)
+                    try:
+                        _ev, exits = boolx.walk_under(f.node, decide)
+                    except ValueError as e:
+                        raise AnalysisError("C20.P5: %s: %s" % (fname, e))
+                    want = (o_ != n_) or (o_ and n_ and not eq)
+                    for kind, st, env in exits:
+                        tests = [a for a, _v in env.get(boolx.TESTS, ())]
+                        if not any("default_value" in a for a in tests):
+                            continue
+                        consulted += 1
+                        got = any(isinstance(c.func, ast.Name) and c.func.id.endswith("DefaultValueChange") for c in env.get(boolx.CALLS, ()))
                         if got != want:
                             bad.append((o_, n_, eq, got))
-            if bad:
-                run.report(r, "%s:default-comparison:truth-table" % D, "src/py_gql/schema/differ/__init__.py", "default change condition is wrong on rows (old has, new has, equal, reported): %s" % bad)
-        except KeyError as e:
-            raise AnalysisError("C20.P5: unrecognised atom %s in the default comparison" % e)
+        r.instance("%s: %d executions consult the defaults, %d wrong" % (fname, consulted, len(set(bad))))
+        if not consulted:
+            raise AnalysisError("C20.P5: %s never consults the defaults" % fname)
+        if bad:
+            run.report(r, "%s:%s:default-comparison" % (D, fname), f.where(),
+                       "default change condition is wrong on rows (old has, new has, equal, reported): %s" % sorted(set(bad)))
